@@ -35,7 +35,10 @@ SPEC['C03'] = ('Bottom-up build leaves every known task up to date', ['Local2', 
   ('C03_mixed_refuted', 'Findings', 'C03_mixed_refuted',
    'recorded finding (O4): with a top-down build between the change and its report, the bottom-up build executes nothing and a task stays stale'),
 ], 'PARTIAL + recorded finding. The global statement is decided by correspondence + the probe-session oracle.')
-SPEC['C04'] = ('Bottom-up build runs only affected tasks, once, in dependency order', ['Queue', 'Local', 'BuJust', 'BuOnce', 'BuOnce2', 'ExecInv', 'Cert', 'Stable', 'NoBug4All', 'NoAbort', 'NoAbortAll', 'HasOut', 'OnceAll', 'C01Witness', 'OnceWitness', 'MixedOnce'], [
+SPEC['C04'] = ('Bottom-up build runs only affected tasks, once, in dependency order', ['Queue', 'Local', 'BuJust', 'BuOnce', 'BuOnce2', 'ExecInv', 'Cert', 'Stable', 'NoBug4All', 'NoAbort', 'NoAbortAll', 'HasOut', 'OnceAll', 'C01Witness', 'OnceWitness', 'MixedOnce', 'PopOrder'], [
+  ('C04_popped_task_depends_on_no_queued_task', 'PopOrder', 'queue_pop_no_queued_dependency', 'DEPENDENCY ORDER in the words of the property: "a scheduled task is never executed before another scheduled task that it depends on". At Queue::pop (directly followed by the execution of the popped task), in ANY world whose dependency graph is well formed -- every reachable world, by C06_store_invariant_every_reachable_state -- the popped task has no path of recorded dependencies to any task that stays queued'),
+  ('C04_pulled_task_depends_on_no_queued_task', 'PopOrder', 'pop_least_no_queued_dependency', 'the same at pop_least_task_with_dependency_from (a task executing in the build requires a task with scheduled dependencies)'),
+  ('C04_pulled_task_is_a_dependency_of_the_requirer', 'PopOrder', 'pop_least_takes_a_dependency', 'and what is pulled forward is the required task itself or one of its transitive dependencies: nothing unrelated is executed early'),
   ('C04_witness_does_real_work', 'OnceWitness', 'C04_witness_does_real_work', 'non-vacuity of C04_at_most_once_static_class: for the witness program of C01 (a generator and its consumer, static class, exact checkers), after a history that built both and then changed the generator input, the bottom-up build over that input completes and executes the generator and then the consumer (newest first: [0; 1]), each once'),
   ('C04_second_execution_only_after_rescheduling', 'BuOnce2', 'bottom_up_second_execution_rescheduled', 'at-most-once, second step (BuOnce.v + NoReentry.v), for ALL programs and checkers: in the bottom-up build that opens a session after ANY history (completed or aborted), between two execution starts of the same task the task was scheduled again -- the alternative of C04_at_most_once_partial (the earlier execution still open) is excluded by C07 for all sessions'),
   ('C04_at_most_once_partial', 'BuOnce', 'bottom_up_no_duplicate_execution', 'the at-most-once clause, PARTIAL but global: for ALL programs, checkers, fuel, worlds and change sets, in ANY bottom-up build (completed or aborted) a second execution of a task t can only start if, since the previous start of t, t was scheduled again or that previous execution has not ended -- the queue bookkeeping and the "new task" shortcut never duplicate an execution (what failed before the repair of O14). Missing for the full clause: a task is not scheduled again after it ran (the hidden-dependency argument inside the class), and an executing task is not re-entered (the cycle check); both are decided by the oracle executed-twice on every run'),
